@@ -398,14 +398,10 @@ func (v *LogScopeVariables) Get(s context.Scope, name string) (value.Value, erro
 func (v *LogScopeVariables) getFromRegex(name string) (value.Value, error) {
 	// HTTP response header matching
 	if match := responseHttpHeaderRegex.FindStringSubmatch(name); match != nil {
-		return &value.String{
-			Value: v.ctx.Response.Header.Get(match[1]),
-		}, nil
+		return getResponseHeaderValue(v.ctx.Response, match[1]), nil
 	}
 	if match := backendRequestHttpHeaderRegex.FindStringSubmatch(name); match != nil {
-		return &value.String{
-			Value: v.ctx.BackendRequest.Header.Get(match[1]),
-		}, nil
+		return getRequestHeaderValue(v.ctx.BackendRequest, match[1]), nil
 	}
 	return v.base.getFromRegex(name)
 }
